@@ -3,11 +3,80 @@ package c06
 
 import (
 	"fmt"
+	"strings"
+	"sync"
+	"time"
 	"verif/internal/rig"
 
 	"verif/internal/pipe"
 	"verif/internal/vp"
 )
+
+// hooks: the family finished-source-callback-held holds, from a harness action at the
+// scheduling point in front of the persist callbacks, the callbacks of the flush
+// generation that made the LAST position of the finished source s0 durable, while
+// the other source keeps flowing (its later flush generations complete meanwhile),
+// and requests the graceful stop inside that hold. The stop has to wait for the held
+// generation: s0's last acks are delivered before s0 is torn down.
+func hooks(sc *pipe.Scenario) *pipe.Hooks {
+	if !strings.Contains(sc.Name, "finished-source-callback-held") {
+		return nil
+	}
+	last := sc.Records[0] - 1
+	return &pipe.Hooks{
+		AfterBuild: func(r *rig.Rig, sc *pipe.Scenario) {
+			if r.Points == nil {
+				return
+			}
+			var mu sync.Mutex
+			var trig time.Time
+			r.Points.On("connector.persister.callback", func() {
+				mu.Lock()
+				if trig.IsZero() {
+					// has a commit made s0's last position durable, its ack still undelivered?
+					durable, acked := false, false
+					for _, e := range r.Log.Snapshot() {
+						if e.Kind == rig.KCommit && e.Snap != nil && e.Snap.Pos["s0"] == last {
+							durable = true
+						}
+						if e.Kind == rig.KSrcAck && e.Comp == "s0" {
+							for _, x := range e.Idx {
+								if x == last {
+									acked = true
+								}
+							}
+						}
+					}
+					if !durable || acked {
+						mu.Unlock()
+						return
+					}
+					trig = time.Now()
+					r.Log.Append(rig.Ev{Kind: rig.KNote, Note: "persist callbacks held"})
+				}
+				held := time.Since(trig) < time.Millisecond // the callbacks of one generation start together
+				mu.Unlock()
+				if held {
+					time.Sleep(80 * time.Millisecond)
+				}
+			})
+		},
+		Op: func(r *rig.Rig, sc *pipe.Scenario, op string) bool {
+			if op != "await-held" {
+				return false
+			}
+			r.Log.WaitFor(func(evs []rig.Ev) bool {
+				for i := len(evs) - 1; i >= 0; i-- {
+					if evs[i].Kind == rig.KNote && evs[i].Note == "persist callbacks held" {
+						return true
+					}
+				}
+				return false
+			}, 10*time.Second)
+			return true
+		},
+	}
+}
 
 func gen(seed int64, tier string, idx int) *pipe.Scenario {
 	g := pipe.NewGen(seed, idx)
@@ -47,6 +116,31 @@ func gen(seed int64, tier string, idx int) *pipe.Scenario {
 			pipe.Step{AtEvent: 20 + g.R.Intn(30), Op: "stopdl:" + []string{"30", "45", "60"}[g.R.Intn(3)]},
 			pipe.Step{AtEvent: 0, Op: "stopandwait", AfterPrevUs: []int{0, 2000, 50000, 120000}[g.R.Intn(4)]})
 		sc.Name = "abandoned-stop-then-stop"
+		return sc
+	}
+	if idx%10 == 3 {
+		// two sources on the one persister: s0 finishes early, s1 keeps flowing; the
+		// stop arrives while the callbacks of the generation holding s0's last
+		// position are held (see hooks) and later generations of s1 complete
+		s0 := rig.ConnSpec{ID: "s0"}
+		s0.Src.Batches = []int{1, 2}
+		s1 := rig.ConnSpec{ID: "s1"}
+		s1.Src.Batches = []int{1}
+		s1.Src.PaceUs = []int{300, 600, 1000}[g.R.Intn(3)]
+		sc.Topo.Sources = []rig.ConnSpec{s0, s1}
+		sc.Records = []int{4 + g.R.Intn(8), 2000}
+		sc.Topo.PipeProcs = nil
+		sc.Cond = nil
+		sc.Topo.Dests = sc.Topo.Dests[:1]
+		sc.Topo.Dests[0].Procs = nil
+		sc.Topo.Dests[0].Dst.LatencyUs = nil
+		sc.PersistDelayUs = []int{200, 500}[g.R.Intn(2)]
+		sc.PersistBundle = []int{1, 2, 3}[g.R.Intn(3)]
+		sc.Points = map[string]int{} // no pseudo-random sleeps: the hold is the schedule
+		sc.Steps = append(sc.Steps,
+			pipe.Step{AtEvent: 0, Op: "await-held"},
+			pipe.Step{AtEvent: 0, Op: "stopandwait", AfterPrevUs: []int{8000, 15000, 30000}[g.R.Intn(3)]})
+		sc.Name = "finished-source-callback-held"
 		return sc
 	}
 	sc.Steps = append(sc.Steps, pipe.Step{AtEvent: at, Op: "stopandwait", AfterPrevUs: []int{0, 0, 200, 3000}[g.R.Intn(4)]})
@@ -104,6 +198,6 @@ func init() {
 		Quick:    320, Thorough: 3200, HangIsViol: true,
 		PointBias: []string{"connector.persister.before-commit", "connector.persister.after-commit", "connector.persister.callback", "connector.source.ack", "lifecycle.stop.checked", "lifecycle.recover.backoff-elapsed", "lifecycle.run.ended"},
 		Anchors:   []string{"pkg/lifecycle/stream/source.go", "pkg/lifecycle/stream/destination.go", "pkg/lifecycle/stream/destination_acker.go", "pkg/lifecycle/stream/dlq.go", "pkg/lifecycle/stream/base.go", "pkg/lifecycle-poc/funnel/worker.go", "pkg/connector/source.go", "pkg/connector/destination.go", "pkg/connector/persister.go"},
-		Gen:       gen, Judge: judge,
+		Gen:       gen, Hooks: hooks, Judge: judge,
 	})
 }
